@@ -161,6 +161,8 @@ class ADWINAccDriver(_ErrDriver):
         return [
             {"delta": 1.0, "max_buckets": 2, "new_sample_thresh": 1, "window_size_thresh": 0, "subwindow_size_thresh": 1},
             {"delta": 0.5, "max_buckets": 1, "new_sample_thresh": 2, "window_size_thresh": 2, "subwindow_size_thresh": 1},
+            # the conservative bound has no variance-free term, so 0/1 indicator streams are cut within a dozen samples
+            {"delta": 1.0, "max_buckets": 5, "new_sample_thresh": 1, "window_size_thresh": 0, "subwindow_size_thresh": 1, "conservative_bound": True},
         ]
 
     def extra_obs(self, det):
@@ -492,3 +494,33 @@ DRIVERS = {
         MD3Driver(),
     )
 }
+
+
+def drift_prefixes(name, p, maxlen=5, limit=3):
+    """Shortest update sequences (driver alphabet) after which the real detector reports drift:
+    scripted starts from non-initial states, so that second and third epochs lie deep inside the bound."""
+    d = DRIVERS[name]
+    np.random.seed(12345)
+    found = []
+    frontier = [((), d.make(p))]
+    for _ in range(maxlen):
+        nxt = []
+        for pre, det in frontier:
+            for sym in (d.enabled(det) if name == "MD3" else d.alphabet(p)):
+                x = copy.deepcopy(det)
+                try:
+                    d.feed(x, sym, p)
+                except Exception:
+                    continue
+                if x.drift_state == "drift":
+                    found.append(list(pre) + [sym])
+                    if len(found) >= limit:
+                        return found
+                else:
+                    nxt.append((pre + (sym,), x))
+        if found:
+            return found
+        frontier = nxt[:4000]
+    return found
+
+
